@@ -96,16 +96,25 @@ Definition mint_coins (s : bank) (m : N) (amt : clist) : bank * N :=
   (mkbank (set_coins (b_bal s) m (cadd_list (coins_of (b_bal s) m) amt))
           (cadd_list (b_supply s) amt) (b_pool s), B_OK).
 
+(** the distribution keeper's own update of the FeePool (GetFeePool / add / SetFeePool):
+    MsgFundCommunityPool, community-pool spend, truncation remainders of reward
+    withdrawals, the community share of AllocateTokens.  [adj] is in 10^-18 units
+    and may be negative (spend). *)
+Definition pool_adj (p : coins) (adj : list (N * Z)) : coins :=
+  fold_left (fun m '(d, x) => zset m d (zget m d + x)) adj p.
+
 Inductive bop :=
 | Burn (m : N) (amt : clist)          (* BurnCoins through the keeper that staking and gov hold *)
 | Mint (m : N) (amt : clist)
-| Send (a b : N) (amt : clist).
+| Send (a b : N) (amt : clist)
+| DistrBook (adj : list (N * Z)).     (* FeePool.CommunityPool += adj, written by the distribution keeper *)
 
 Definition bstep (s : bank) (o : bop) : bank * N :=
   match o with
   | Burn m amt => burn_coins s m amt
   | Mint m amt => mint_coins s m amt
   | Send a b amt => send_coins s a b amt
+  | DistrBook adj => (mkbank (b_bal s) (b_supply s) (pool_adj (b_pool s) adj), B_OK)
   end.
 
 Definition brun (ops : list bop) (s : bank) : bank := fold_left (fun s o => fst (bstep s o)) ops s.
@@ -153,9 +162,146 @@ Definition check_event (e : event) : bool :=
   let '(s', r) := run_res ops (load pre) B_OK in
   bool_decide (observe s' = post) && (r =? res)%N.
 
-Definition check_case (c : list event) : bool := forallb check_event c.
 
-Fixpoint mismatches_from (i : nat) (cs : list (list event)) : list nat :=
+(** ---- sequences of community-pool events (one denomination) ----
+
+    The second model looks at ONE denomination and at the order in which the
+    FeePool is read and written when redirected burns are interleaved with the
+    distribution module's own community-pool traffic, within one block and
+    across blocks.  State: bank supply, the stored FeePool.CommunityPool and the
+    sum of the validators' outstanding rewards (both in 10^-18 units), the
+    balance of the distribution module account, the balances of the three
+    redirected module accounts together ([c_src]) and of everybody else
+    together ([c_other]). *)
+Record cst := mkcst {
+  c_supply : Z;
+  c_pool : Z;
+  c_distr : Z;
+  c_out : Z;
+  c_src : Z;
+  c_other : Z
+}.
+Global Instance cst_eq_dec : EqDecision cst.
+Proof. solve_decision. Defined.
+
+Inductive acl := ASrc | ADistr | AOther.
+
+Inductive cev :=
+| EvBurn (m : N) (x : Z)        (* BurnCoins(m, x): redirected for gov / bonded / not-bonded, ordinary otherwise *)
+| EvFund (y : Z)                (* MsgFundCommunityPool *)
+| EvSpend (z : Z)               (* community-pool spend (DistributeFromFeePool) *)
+| EvRemainder (p r : Z)         (* a distribution hook / withdrawal: rewards p*10^18 + r leave the outstanding
+                                   rewards, p coins are paid out, the remainder r is booked into the pool *)
+| EvAllocate (f c : Z)          (* BeginBlock AllocateTokens: f coins of fees enter the distribution account,
+                                   c (10^-18) of them for the community pool, the rest outstanding rewards *)
+| EvMint (x : Z)
+| EvMove (a b : acl) (x : Z)    (* plain bank send between the three groups of accounts *)
+| EvNextBlock.
+
+Definition redirected_burn (x : Z) : cev := EvBurn BONDED x.
+Definition plain_burn (m : N) (x : Z) : cev := EvBurn m x.
+Definition pool_remainder (r : Z) : cev := EvRemainder 0 r.
+
+(** keeper.GetFeePool / keeper.SetFeePool: the pool lives in the store, every
+    writer reads it, adds, and writes it back *)
+Definition get_fee_pool (s : cst) : Z := c_pool s.
+Definition set_fee_pool (s : cst) (p : Z) : cst :=
+  mkcst (c_supply s) p (c_distr s) (c_out s) (c_src s) (c_other s).
+
+Definition cbal (a : acl) (s : cst) : Z :=
+  match a with ASrc => c_src s | ADistr => c_distr s | AOther => c_other s end.
+Definition cadd (a : acl) (x : Z) (s : cst) : cst :=
+  match a with
+  | ASrc => mkcst (c_supply s) (c_pool s) (c_distr s) (c_out s) (c_src s + x) (c_other s)
+  | ADistr => mkcst (c_supply s) (c_pool s) (c_distr s + x) (c_out s) (c_src s) (c_other s)
+  | AOther => mkcst (c_supply s) (c_pool s) (c_distr s) (c_out s) (c_src s) (c_other s + x)
+  end.
+Definition cmove (a b : acl) (x : Z) (s : cst) : cst := cadd b x (cadd a (- x) s).
+
+(** does the call go through (otherwise the transaction / block is aborted and
+    nothing is written) *)
+Definition cok (s : cst) (e : cev) : bool :=
+  match e with
+  | EvBurn m x =>
+      if redirected m then (0 <=? x) && (x <=? c_src s)
+      else burner m && (0 <=? x) && (x <=? c_other s) && (x <=? c_supply s)
+  | EvFund y => (0 <=? y) && (y <=? c_other s)
+  | EvSpend z => (0 <=? z) && (z * dec_unit <=? c_pool s) && (z <=? c_distr s)
+  | EvRemainder p r => (0 <=? p) && (0 <=? r) && (p * dec_unit + r <=? c_out s) && (p <=? c_distr s)
+  | EvAllocate f c => (0 <=? f) && (f <=? c_other s) && (0 <=? c) && (c <=? f * dec_unit)
+  | EvMint x => 0 <=? x
+  | EvMove a _ x => (0 <=? x) && (x <=? cbal a s)
+  | EvNextBlock => true
+  end.
+
+Definition capply (s : cst) (e : cev) : cst :=
+  match e with
+  | EvBurn m x =>
+      if redirected m then
+        let s1 := cmove ASrc ADistr x s in                      (* SendCoinsFromModuleToModule(m, distribution) *)
+        set_fee_pool s1 (get_fee_pool s1 + x * dec_unit)         (* read the pool from the store, add, write back *)
+      else mkcst (c_supply s - x) (c_pool s) (c_distr s) (c_out s) (c_src s) (c_other s - x)
+  | EvFund y =>
+      let s1 := cmove AOther ADistr y s in
+      set_fee_pool s1 (get_fee_pool s1 + y * dec_unit)
+  | EvSpend z =>
+      let s1 := set_fee_pool s (get_fee_pool s - z * dec_unit) in
+      cmove ADistr AOther z s1
+  | EvRemainder p r =>
+      let s1 := cmove ADistr AOther p s in
+      let s2 := mkcst (c_supply s1) (c_pool s1) (c_distr s1) (c_out s1 - (p * dec_unit + r)) (c_src s1) (c_other s1) in
+      set_fee_pool s2 (get_fee_pool s2 + r)
+  | EvAllocate f c =>
+      let s1 := cmove AOther ADistr f s in
+      let s2 := mkcst (c_supply s1) (c_pool s1) (c_distr s1) (c_out s1 + (f * dec_unit - c)) (c_src s1) (c_other s1) in
+      set_fee_pool s2 (get_fee_pool s2 + c)
+  | EvMint x => mkcst (c_supply s + x) (c_pool s) (c_distr s) (c_out s) (c_src s) (c_other s + x)
+  | EvMove a b x => cmove a b x s
+  | EvNextBlock => s
+  end.
+
+Definition cstep (s : cst) (e : cev) : cst := if cok s e then capply s e else s.
+Definition crun (evs : list cev) (s : cst) : cst := fold_left cstep evs s.
+
+(** The same machine with the decoded FeePool memoised per block height by the
+    redirecting BurnCoins (NOT what /repo does; the shape of a plausible
+    optimisation): only the first redirected burn of a height reads the store,
+    later ones start from the memo; everybody else reads and writes the store. *)
+Record kst := mkkst {
+  k_st : cst;
+  k_height : Z;
+  k_memo : option (Z * Z)       (* height, pool *)
+}.
+Definition kget_fee_pool (k : kst) : Z :=
+  match k_memo k with
+  | Some (h, p) => if h =? k_height k then p else c_pool (k_st k)
+  | None => c_pool (k_st k)
+  end.
+Definition kstep (k : kst) (e : cev) : kst :=
+  match e with
+  | EvNextBlock => mkkst (k_st k) (k_height k + 1) (k_memo k)
+  | EvBurn m x =>
+      if redirected m && cok (k_st k) e then
+        let s1 := cmove ASrc ADistr x (k_st k) in
+        let p := kget_fee_pool k + x * dec_unit in
+        mkkst (set_fee_pool s1 p) (k_height k) (Some (k_height k, p))
+      else mkkst (cstep (k_st k) e) (k_height k) (k_memo k)
+  | _ => mkkst (cstep (k_st k) e) (k_height k) (k_memo k)
+  end.
+Definition krun (evs : list cev) (k : kst) : kst := fold_left kstep evs k.
+
+(** one observed sequence: state before, the events in the order the
+    implementation executed them, state after *)
+Definition seqcase : Type := cst * list cev * cst.
+Definition check_seq (c : seqcase) : bool :=
+  let '(pre, evs, post) := c in bool_decide (crun evs pre = post).
+
+(** a case of the harness: the per-event bank view and, per denomination that
+    moved, the whole history as one sequence *)
+Definition hcase : Type := list event * list seqcase.
+Definition check_case (c : hcase) : bool := forallb check_event (fst c) && forallb check_seq (snd c).
+
+Fixpoint mismatches_from (i : nat) (cs : list hcase) : list nat :=
   match cs with
   | [] => []
   | c :: r => if check_case c then mismatches_from (S i) r else i :: mismatches_from (S i) r
